@@ -37,17 +37,18 @@ Variable bld : build.
 Variable P : program.
 Variable reenter : N -> state -> rres.
 Variable start : N -> Prop.
+Variable OKA : abort -> Prop.
 
 Notation ipok := (ipok P start).
 Notation vm_inv0 := (vm_inv0 P start).
 Notation vm_inv := (vm_inv P start).
 Notation ninv := (ninv P start).
 Notation nst_ok := (nst_ok P start).
-Notation nres_ok := (nres_ok P start).
+Notation nres_ok := (nres_ok P start OKA).
 
 Definition nres_ok0 (s : state) (r : nres) : Prop :=
   match r with
-  | NStop _ _ => False
+  | NStop a _ => OKA a
   | NOk v s' => vm_inv s' /\ length (st_heap s) <= length (st_heap s') /\ val_ok (st_heap s') v
   | NErr _ s' => vm_inv s' /\ length (st_heap s) <= length (st_heap s')
   end.
@@ -66,7 +67,7 @@ Proof.
 Qed.
 
 Hypothesis Hcode : code_ok P start.
-Hypothesis Hre : reenter_ok P reenter start.
+Hypothesis Hre : reenter_ok P reenter start OKA.
 Hypothesis Hlen : (0 < code_len P)%N.
 
 Notation self f := (call_native_fuel F P reenter (S f)).
@@ -131,8 +132,8 @@ Proof.
   destruct (spush s1 k) as [s2|] eqn:E2; [|split; assumption].
   destruct (ninv_spush P start _ _ _ Hn1 E2 ltac:(rewrite Hh1; exact Hk)) as [Hn2 Hh2].
   split; [|split; assumption].
-  apply (nres_ok_mono P start s s2); [rewrite Hh2, Hh1; apply Nat.le_refl|].
-  apply (run_function_ok F P reenter start Hcode Hre Hlen f key_fn s2 Hn2). rewrite Hh2, Hh1. exact Hf.
+  apply (nres_ok_mono P start OKA s s2); [rewrite Hh2, Hh1; apply Nat.le_refl|].
+  apply (run_function_ok F P reenter start OKA Hcode Hre Hlen f key_fn s2 Hn2). rewrite Hh2, Hh1. exact Hf.
 Qed.
 
 Definition pairs_ok (h : heap) (l : list (value * value)) : Prop :=
@@ -371,7 +372,7 @@ Lemma body_all_ok0 f n s : ninv s ->
   nres_ok0 s (native_body F P reenter (self f) n s).
 Proof.
   intros Hn. destruct (covered_native n) eqn:Ec.
-  - apply nres_ok_weaken. apply (body_reentrant_ok F P reenter start Hcode Hre Hlen f n s Hn Ec).
+  - apply nres_ok_weaken. apply (body_reentrant_ok F P reenter start OKA Hcode Hre Hlen f n s Hn Ec).
   - pose proof (vi_closed P start s (proj1 (proj1 Hn))) as Hcl.
     destruct n; try discriminate; cbn [native_body]; cbv zeta;
       first [apply native_minmax_ok0 | apply native_sorted_ok0]; try exact Hn; apply speek_ok; exact Hcl.
